@@ -521,6 +521,15 @@ def container_method(ip, v, name):
             return PyFn(add, "set.add")
         if name == "index":
             return PyFn(lambda ip2, x: v.index(x), "list.index")
+        if name == "union" and isinstance(v, SetList):
+            def union(ip2, *others):
+                out = SetList(list(v))
+                for o in others:
+                    for x in ip2.iterate(o):
+                        if not any(x is y or (not isinstance(x, (Obj, PyObj)) and ip2.equals(x, y) is True) for y in out):
+                            out.append(x)
+                return out
+            return PyFn(union, "set.union")
     if isinstance(v, dict):
         if name == "items":
             return PyFn(lambda ip2: [(k, v[k if not hasattr(v, "_keys") else id(k)]) for k in (v.keys())], "dict.items")
